@@ -120,12 +120,14 @@ type vfForcer struct {
 	mu    sync.Mutex
 	armed bool
 	val   uint32
+	fired int
 }
 
 func (f *vfForcer) Read(p []byte) (int, error) {
 	f.mu.Lock()
 	if f.armed && len(p) == 8 {
 		f.armed = false
+		f.fired++
 		v := f.val
 		f.mu.Unlock()
 		binary.BigEndian.PutUint32(p[0:4], v&0x7fffffff)
@@ -253,8 +255,12 @@ func TestVerifC14Stream(t *testing.T) {
 	c.Floor("hdr>=3seg/stream", 0.10)
 	c.Floor("coalesced-hs+data/stream", 0.08)
 	c.Floor("refpad-extreme/mixed", 0.25)
-	c.Floor("realpad-8192/stream", 0.08) // the steering of the real side's padding draw works
-	c.Floor("realpad-0/stream", 0.08)
+	// The steering of the real side's padding draw presupposes how the code draws
+	// it (one 8-byte read behind csrand.IntRange).  Its floors are therefore relative
+	// to the cases in which the steering was seen to take effect at all: an
+	// implementation that draws its padding differently simply runs unsteered.
+	c.Floor("realpad-8192/pad-steering-took-effect", 0.10)
+	c.Floor("realpad-0/pad-steering-took-effect", 0.10)
 	c.Floor("iv-32bit-carry-crossed/mixed", 0.15)
 	c.Floor("iv-24bit-carry-crossed/mixed", 0.20)
 	c.Floor("iv-16bit-carry-crossed/mixed", 0.25)
@@ -677,6 +683,9 @@ func vfC14StreamCase(rt *rapid.T, c *ev.Collector) {
 		case refobfs2.MaxPadding:
 			cls = append(cls, "refpad-8192")
 		}
+	}
+	if forcer.fired > 0 {
+		cls = append(cls, "pad-steering-took-effect")
 	}
 	if arr != vfArrRR {
 		cls = append(cls, "mixed")
